@@ -6,4 +6,18 @@ def run(tier, seed):
         "the cheater's HTLC-success transactions exist for the HTLCs it claimed while the revoked state was current "
         "(its monitor holds the preimage then); other received HTLCs of a revoked state can only time out to the victim",
         "the victim's claims may be starved for up to ~100 blocks (< to_self_delay), after that mining is fair",
+        "second-stage transactions of the cheater: pre-signed SIGHASH_ALL transactions (channels without anchors), wallet-built "
+        "aggregates (n HTLC inputs + fee input -> n HTLC outputs + change) and, on anchor / zero-fee-commitment channels, hand-made "
+        "transactions of every shape SIGHASH_SINGLE|ANYONECANPAY allows, signed by the real second node's channel signer: one or "
+        "several HTLC inputs in any order, a subset only, own inputs before / between / after them, own outputs wherever no HTLC "
+        "input stands, more or fewer outputs than inputs; HTLC-success and HTLC-timeout (or timeouts of different expiries) never "
+        "share a transaction because both signatures commit to nLockTime",
+        "reorganisations may unconfirm the commitment, second-stage transactions and confirmed claims (they confirm again when the "
+        "schedule lets them, at the same height or later); the network keeps the nodes' claims or forgets every claim that hangs on "
+        "(or had lost an input to) a transaction that left the chain; after it forgot some, the application's periodic "
+        "rebroadcast_pending_claims runs after each of the next ten blocks; the obligations are judged from the first block of the "
+        "new chain on, not between the disconnection and that block",
+        "ANTI_REORG_DELAY is the library's documented security assumption: no reorganisation deeper than 6 blocks, no transaction "
+        "with 6 or more confirmations (on the longest chain seen) is unconfirmed, the chain is not taken back below an HTLC expiry "
+        "it had reached; feerates are not compared across a re-confirmation of the commitment",
     ])
